@@ -13,8 +13,8 @@ RULE = ("import cases: JSON values (absent keys, nulls, unknown keys, wrong type
         "recognised as a listing by re-rendering. non-trivial = at least one record; distinct by case text")
 EXHAUSTIVE = {"quick": False, "thorough": False}
 TRUSTED_BASE = ["Spec/RebaseListing.lean: the format-31 writer and `expectedMap` typed by hand from the format description in the file header",
-                "encoding/json's text layer (escaping, UTF-8): the export is compared as the token stream json.Decoder yields, the theorem "
-                "export_roundtrip is about JSON values",
+                "encoding/json's text layer: trusted to be the printer (Base/JVal) and reader (Base/JsonRead) the text theorem is about; "
+                "rebase.Export's bytes are compared byte for byte with that printer on every case",
                 "Model/LineText.lean: strings.Split/Contains/TrimLeft, sort.Strings modelled on ASCII",
                 "ioutil.ReadFile (rebase.Read) — exercised by the correspondence check only"]
 ASSUMPTIONS = ["supplier code letters are ASCII (rune(trimmedString[0]) is a byte, the name is cut at byte 9; range over line[3:] yields "
@@ -32,10 +32,13 @@ PARTIAL = ["NARROWING of 'arbitrary header prose' and of free field text: parse_
            "no <j>, j < k, in the line of field k). rebase.Parse dispatches on strings.Contains in the order 1..8, so such text is filed "
            "under another field (a prose line 'see <8> below' stores a bogus entry; '<8>ref ... <2>' loses the record). A LATER tag inside "
            "an earlier field is in the domain, proved and sampled. The excluded shapes are sampled as out-of-domain probes (model drift only).",
-           "export_roundtrip is a statement about JSON VALUES (exportJ / importJ, driven by the regenerated struct tags); the text layer of "
-           "encoding/json is trusted and tied by comparing the real export's token stream and Go's own Unmarshal+DeepEqual on every case "
-           "(incl. quotes, backslashes, &, <, >, control characters, U+2028, multi-byte UTF-8). For field bytes that are NOT valid UTF-8 "
-           "(e.g. Latin-1) the clause is false of the code — json.Marshal writes U+FFFD — and such input cannot be expressed in a case file"]
+           "the clause 'the JSON export parses back to the same map' is proved at the level of the TEXT for the Lean printer and reader of JSON "
+           "(export_text_roundtrip: importText (exportText m) = m's entries, from JsonText.parse_print); what is TRUSTED is that "
+           "encoding/json IS that printer and that reader — corresponded both ways on every case: rebase.Export's real bytes are compared "
+           "byte for byte with exportText (incl. quotes, backslashes, &, <, >, control characters, U+2028, multi-byte UTF-8), Go's own "
+           "Unmarshal+DeepEqual flag json-same is judged, and json.Unmarshal is compared with importJ on the import cases. For field bytes "
+           "that are NOT valid UTF-8 (e.g. Latin-1) the clause is false of the code — json.Marshal writes U+FFFD — outside the quantifier "
+           "(listings are text), recorded by the rawhex cases"]
 TIMEOUT_MS = 8000
 
 WORDS = ["New", "England", "Biolabs", "Takara", "Bio", "Inc.", "Ltd.", "(3/21)", "(11/20)", "Co.,", "Life", "Technologies", "-", "CHIMERx",
@@ -234,11 +237,12 @@ LEVEL_TEXT = ("parse_listing: for every supplier table, record list and layout s
               "records and suppliers, any prose, indentation by blanks and/or tabs, any number of blank lines) Parse(listing …) returns "
               "exactly expectedMap — one entry per record keyed by its name, the eight fields as written (no isoschizomers for an empty <2>, "
               "since fix a3fb5a0), every supplier letter decoded through the listing's own table (parse_listing_entries for distinct names). export_roundtrip: importJ (exportJ m) is m in "
-              "sorted key order, for every map with distinct keys (parse_export_roundtrip for the map Parse returns). tags_shape / "
+              "sorted key order, for every map with distinct keys (parse_export_roundtrip for the map Parse returns); export_text_roundtrip / "
+              "parse_export_text_roundtrip: the same through the JSON TEXT (printer of Base/JVal, reader of Base/JsonRead). tags_shape / "
               "tags_nodup are decided on the regenerated struct-tag table. The distributed sample is shown on every run to be "
               "`listing sups recs ℓ` for the content the recogniser extracts (checked by re-rendering), hence inside the theorem's domain.")
 LEVEL_NOTE = ("Trusted: Lean kernel; the hand-written model's faithfulness is sampled by the correspondence check (entries field by field, "
-              "Read through a file, Export token stream, Unmarshal back in Go); encoding/json's text layer; non-ASCII input is outside the model.")
+              "Read through a file, Export's bytes byte for byte against the model's printer, Unmarshal back in Go, json.Unmarshal against importJ); encoding/json's text layer; non-ASCII input is outside the model.")
 HARNESS_BIN = "run-io"
 EXTRACT_BINS = ["extract-io"]
 
